@@ -44,7 +44,7 @@ import (
 // it, so that the judge knows which selected cases received a real answer whatever the
 // interleaving of concurrently running batches was.
 //
-// in  = {layout, maxServers, cases, k, stop}; layout = number of server batches (1: Connect over
+// in  = {layout, maxServers, cases, k, stop, quiet}; quiet = without -v (Flags.Verbose false); layout = number of server batches (1: Connect over
 //       HTTP/1.1; 2: + HTTP/2; 3: Connect and gRPC-Web over HTTP/1.1, the latter also against the
 //       gRPC reference server); cases[i] as in op "run" (r|w expectation, u|f|k marking)
 // impl = {ok, batches (selected permutations per batch, as the library computes them), answered,
@@ -169,6 +169,9 @@ type c04LoopIn struct {
 	Cases      []string `json:"cases"`
 	K          int      `json:"k"`
 	Stop       string   `json:"stop"`
+	// Quiet: run without -v (Flags.Verbose = false, the command line's default): no log lines before
+	// the report, server instances visited in map order.  What is reported must not depend on it.
+	Quiet bool `json:"quiet,omitempty"`
 }
 
 type c04LoopOut struct {
@@ -268,7 +271,7 @@ func c04RunLoop(c *gen.Ctx, in c04LoopIn) c04LoopOut {
 	self, _ := os.Executable()
 	cmd := []string{self, "c04peer", dir, filepath.Join(c.BinDir, "referenceclient"), strconv.Itoa(in.K), in.Stop}
 	t0 := time.Now()
-	ok, errText, lines, _ := cc.VerifC04RunLoop(dir, cmd, suite, cfg, failing, flaky, uint(in.MaxServers))
+	ok, errText, lines, _ := cc.VerifC04RunLoopFlags(dir, cmd, suite, cfg, failing, flaky, uint(in.MaxServers), !in.Quiet)
 	if os.Getenv("VERIF_C04_TIMING") != "" {
 		fmt.Fprintf(os.Stderr, "c04 runloop %+v: %.1fs ok=%v\n", in, time.Since(t0).Seconds(), ok)
 	}
@@ -328,6 +331,11 @@ func c04LoopGen(c *gen.Ctx) {
 		ins = append(ins, c04LoopIn{Layout: layout, MaxServers: ms, Cases: cases, K: k, Stop: stop})
 		c.E.Count("runloop:" + stop)
 	}
+	// the same without -v (the command line's default)
+	addQuiet := func(layout, ms int, cases []string, k int, stop string) {
+		ins = append(ins, c04LoopIn{Layout: layout, MaxServers: ms, Cases: cases, K: k, Stop: stop, Quiet: true})
+		c.E.Count("runloop:quiet:" + stop)
+	}
 	good := []string{"ru", "wf", "rk"} // every case meets its expectation when it is answered
 	// the 20 s scenario first, so that it overlaps with all the others
 	add(2, 1, good, 4, "closeout")
@@ -369,6 +377,20 @@ func c04LoopGen(c *gen.Ctx) {
 	// first batch (--max-servers 1), every case is marked so that a client error is an expected failure
 	add(2, 1, []string{"rk", "rk", "rk"}, 2, "blind0")
 	add(3, 1, []string{"rk", "wf"}, 1, "blind0")
+	// without -v: the verdict, the names and the totals are the same function of what happened; the
+	// early stops with fewer permits than batches leave whole batches undispatched, whose cases are
+	// known to the report only through the number of selected permutations
+	for _, layout := range []int{2, 3} {
+		n := len(good) * layout
+		addQuiet(layout, 1, good, -1, "serve")
+		addQuiet(layout, 1, good, 0, "exit0")
+		addQuiet(layout, 1, good, 1, "exit0")
+		addQuiet(layout, 1, good, len(good), "exit0") // exactly between the first two batches
+		addQuiet(layout, 1, good, r.Range(0, len(good)), "exit3")
+		addQuiet(layout, gen.Pick(r, []int{1, 2, 4}), good, r.Range(0, n), "exit0")
+	}
+	addQuiet(1, 1, []string{"ru"}, 0, "exit0")
+	addQuiet(3, 2, []string{"ru", "wu", "rf"}, 2, "exit3")
 	nRand := 6
 	if c.Thorough() {
 		nRand = 120
@@ -390,7 +412,11 @@ func c04LoopGen(c *gen.Ctx) {
 		if stop == "serve" || stop == "serve3" {
 			k = -1
 		}
-		add(layout, gen.Pick(r, []int{1, 4}), cs, k, stop)
+		if r.Bool() {
+			addQuiet(layout, gen.Pick(r, []int{1, 2, 4}), cs, k, stop)
+		} else {
+			add(layout, gen.Pick(r, []int{1, 4}), cs, k, stop)
+		}
 	}
 	c.DoParallel("runloop", ins, 8)
 }
